@@ -862,6 +862,8 @@ class ComposerBinary(ComposerBase):
                 )
 
                 if item_size == 3:
+                    if value >= 2 ** 24:
+                        raise struct.error(value)
                     if self.byte_order in [ByteOrder.BIG_ENDIAN, ByteOrder.NETWORK]:
                         composed_bytes += packed_bytes[1:]
                     else:
